@@ -29,10 +29,13 @@ OutcomeAt(i, fs) ==     \* the LAST fault that covers solve i wins
     ELSE LET f == fs[Len(fs)] IN
          IF i = f.k \/ (f.p /\ i > f.k) THEN f.o ELSE OutcomeAt(i, SubSeq(fs, 1, Len(fs) - 1))
 
-(* duration patterns: all fast; one slow solve (longer than the limit);    *)
-(* two medium solves (together exactly the limit); three medium solves.    *)
+(* Time is in MICROSECONDS.  Duration patterns: all fast; one slow solve    *)
+(* that overshoots the limit by a single microsecond (the adversarial       *)
+(* boundary: "exceeded" must mean strictly greater, however little); two    *)
+(* medium solves (together exactly the limit: not exceeded); three medium   *)
+(* solves.                                                                  *)
 DurAt(i, pat, lim) ==
-    LET LL == IF lim = 0 THEN 4 ELSE lim IN
+    LET LL == IF lim = 0 THEN 4000000 ELSE lim IN
     CASE pat[1] = "fast"   -> 0
       [] pat[1] = "slow"   -> IF i = pat[2] THEN LL + 1 ELSE 0
       [] pat[1] = "medium" -> IF i <= pat[2] THEN LL \div 2 ELSE 0
